@@ -45,6 +45,12 @@ pub fn v_slice_write<const N: usize>(buf: &mut [u8], off: usize, src: &[u8; N])
     ensures final(buf)@ == old(buf)@.take(off as int) + src@ + old(buf)@.skip(off + N)
 { buf[off..off + N].copy_from_slice(src) }
 
+pub proof fn lemma_le16_len(x: u16) ensures le16(x).len() == 2, from_le16(le16(x)) == x {
+    assert(((((x & 0xff) as u8) as u16) | ((((x >> 8) as u8) as u16) << 8)) == x) by (bit_vector);
+}
+pub proof fn lemma_le32_len(x: u32) ensures le32(x).len() == 4 { lemma_le32_roundtrip(x); }
+pub proof fn lemma_le64_len(x: u64) ensures le64(x).len() == 8, from_le64(le64(x)) == x { lemma_le64_roundtrip(x); }
+
 //@extract nervusdb-storage/src/index/btree.rs header_size ret r
 //@| ensures r == (if kind == PageKind::Leaf { 24usize } else { 32usize })
 //@end
@@ -59,17 +65,32 @@ pub fn v_slice_write<const N: usize>(buf: &mut [u8], off: usize, src: &[u8; N])
 //@end
 //@extract nervusdb-storage/src/index/btree.rs write_u16_le
 //@| requires off + 2 <= old(buf)@.len() <= 0x7fff_ffff_ffff_ffff
-//@| ensures final(buf)@ == old(buf)@.take(off as int) + le16(v) + old(buf)@.skip(off + 2)
+//@| ensures final(buf)@ == old(buf)@.take(off as int) + le16(v) + old(buf)@.skip(off + 2),
+//@|     final(buf)@.len() == old(buf)@.len(), final(buf)@.subrange(off as int, off + 2) == le16(v),
+//@|     forall|j: int| 0 <= j < old(buf)@.len() && !(off <= j < off + 2) ==> #[trigger] final(buf)@[j] == old(buf)@[j],
+//@proof before 1 "=}"
+//@| lemma_le16_len(v);
+//@| assert(buf@.subrange(off as int, off + 2) =~= le16(v));
 //@prewrite "buf[off..off + 2].copy_from_slice(&v.to_le_bytes());" => "v_slice_write(buf, off, &v_u16_to_le_bytes(v));"
 //@end
 //@extract nervusdb-storage/src/index/btree.rs write_u32_le
 //@| requires off + 4 <= old(buf)@.len() <= 0x7fff_ffff_ffff_ffff
-//@| ensures final(buf)@ == old(buf)@.take(off as int) + le32(v) + old(buf)@.skip(off + 4)
+//@| ensures final(buf)@ == old(buf)@.take(off as int) + le32(v) + old(buf)@.skip(off + 4),
+//@|     final(buf)@.len() == old(buf)@.len(), final(buf)@.subrange(off as int, off + 4) == le32(v),
+//@|     forall|j: int| 0 <= j < old(buf)@.len() && !(off <= j < off + 4) ==> #[trigger] final(buf)@[j] == old(buf)@[j],
+//@proof before 1 "=}"
+//@| lemma_le32_len(v);
+//@| assert(buf@.subrange(off as int, off + 4) =~= le32(v));
 //@prewrite "buf[off..off + 4].copy_from_slice(&v.to_le_bytes());" => "v_slice_write(buf, off, &v_u32_to_le_bytes(v));"
 //@end
 //@extract nervusdb-storage/src/index/btree.rs write_u64_le
 //@| requires off + 8 <= old(buf)@.len() <= 0x7fff_ffff_ffff_ffff
-//@| ensures final(buf)@ == old(buf)@.take(off as int) + le64(v) + old(buf)@.skip(off + 8)
+//@| ensures final(buf)@ == old(buf)@.take(off as int) + le64(v) + old(buf)@.skip(off + 8),
+//@|     final(buf)@.len() == old(buf)@.len(), final(buf)@.subrange(off as int, off + 8) == le64(v),
+//@|     forall|j: int| 0 <= j < old(buf)@.len() && !(off <= j < off + 8) ==> #[trigger] final(buf)@[j] == old(buf)@[j],
+//@proof before 1 "=}"
+//@| lemma_le64_len(v);
+//@| assert(buf@.subrange(off as int, off + 8) =~= le64(v));
 //@prewrite "buf[off..off + 8].copy_from_slice(&v.to_le_bytes());" => "v_slice_write(buf, off, &v_u64_to_le_bytes(v));"
 //@end
 
@@ -314,7 +335,8 @@ impl<'a> Page<'a> {
 //@| ensures r is Ok, r->Ok_0 <= pg_count(self.b()),
 //@|     forall|i: int| 0 <= i < r->Ok_0 ==> lex_lt(#[trigger] leaf_cells(self.b())[i].0, target@),
 //@|     forall|i: int| r->Ok_0 <= i < pg_count(self.b()) ==> lex_le(target@, #[trigger] leaf_cells(self.b())[i].0),
-//@prewrite "if k < target {" => "if v_bytes_lt(k, target) {"
+//@preregex "?if k < target \{" => "if v_bytes_lt(k, target) {"
+//@preregex "?if k <= target \{" => "if v_bytes_le(k, target) {"
 //@loop 1
 //@| invariant leaf_wf(self.b()), keys_sorted(leaf_cells(self.b())), n == pg_count(self.b()), lo <= hi <= n, n <= 65535,
 //@|     forall|i: int| 0 <= i < lo ==> lex_lt(#[trigger] leaf_cells(self.b())[i].0, target@),
@@ -334,6 +356,136 @@ impl<'a> Page<'a> {
 //@|     lemma_lex_irrefl(cs[mid as int].0);
 //@|     lemma_lex_trans(target@, cs[mid as int].0, cs[i].0);
 //@| }
+//@end
+}
+
+// ================================================================== internal pages
+/// an internal cell at offset `off`: right child (u64 LE), varint key length, key bytes
+pub open spec fn ic_vlen(b: Seq<u8>, off: int) -> int { vdec(b.skip(off + 8))->Some_0.1 }
+pub open spec fn ic_klen(b: Seq<u8>, off: int) -> int { vdec(b.skip(off + 8))->Some_0.0 as int }
+pub open spec fn ic_end(b: Seq<u8>, off: int) -> int { off + 8 + ic_vlen(b, off) + ic_klen(b, off) }
+pub open spec fn ic_ok(b: Seq<u8>, off: int) -> bool { 0 <= off && off + 8 < 8192 && vdec(b.skip(off + 8)) is Some && ic_end(b, off) <= 8192 }
+pub open spec fn ic_key(b: Seq<u8>, off: int) -> Seq<u8> { b.subrange(off + 8 + ic_vlen(b, off), ic_end(b, off)) }
+pub open spec fn ic_child(b: Seq<u8>, off: int) -> u64 { from_le64(b.subrange(off, off + 8)) }
+pub open spec fn internal_wf(b: Seq<u8>) -> bool {
+    &&& pg_kind_ok(b) && b[4] == 1
+    &&& 32 + 2 * pg_count(b) <= pg_begin(b) <= 8192
+    &&& forall|i: int| 0 <= i < pg_count(b) ==> pg_begin(b) <= #[trigger] pg_slot(b, i) && ic_ok(b, pg_slot(b, i))
+}
+/// separators and children of an internal page: child 0 is the leftmost child, child i+1 is cell i's right child
+pub open spec fn int_seps(b: Seq<u8>) -> Seq<Seq<u8>> { Seq::new(pg_count(b) as nat, |i: int| ic_key(b, pg_slot(b, i))) }
+pub open spec fn int_child(b: Seq<u8>, i: int) -> u64 { if i == 0 { from_le64(b.subrange(24, 32)) } else { ic_child(b, pg_slot(b, i - 1)) } }
+pub open spec fn seps_sorted(s: Seq<Seq<u8>>) -> bool { forall|i: int, j: int| 0 <= i < j < s.len() ==> lex_le(#[trigger] s[i], #[trigger] s[j]) }
+
+impl<'a> Page<'a> {
+//@extract nervusdb-storage/src/index/btree.rs Page::right_sibling ret r
+//@| ensures r.0 == from_le64(self.b().subrange(16, 24))
+//@end
+//@extract nervusdb-storage/src/index/btree.rs Page::leftmost_child ret r
+//@| ensures r is Ok <==> pg_kind_ok(self.b()) && self.b()[4] == 1, r is Ok ==> r->Ok_0.0 == from_le64(self.b().subrange(24, 32)),
+//@end
+//@extract nervusdb-storage/src/index/btree.rs Page::internal_cell_key_and_right_child ret r
+//@| requires internal_wf(self.b()),
+//@| ensures r is Ok <==> idx < pg_count(self.b()),
+//@|     r is Ok ==> r->Ok_0.0@ == int_seps(self.b())[idx as int] && r->Ok_0.1.0 == int_child(self.b(), idx + 1),
+//@prewrite "read_varint_u32(&self.buf[cell_off + 8..])" => "read_varint_u32(v_arr_from(self.buf, cell_off + 8))"
+//@prewrite "Ok((&self.buf[key_start..key_end], right_child))" => "Ok((v_arr_range(self.buf, key_start, key_end), right_child))"
+//@end
+
+// C26.page.internal_child_for_key.spec — descent goes to the child in front of the FIRST separator that
+// is >= target: every separator before the chosen position is < target, every one from it on is
+// >= target.  (A run of equal keys may straddle a split, with part of it at the end of the child
+// left of a separator equal to the key: that child is where the run starts.)
+//@extract nervusdb-storage/src/index/btree.rs Page::internal_child_for_key ret r
+//@| requires internal_wf(self.b()), seps_sorted(int_seps(self.b())),
+//@| ensures r is Ok, r->Ok_0.1 <= pg_count(self.b()), r->Ok_0.0.0 == int_child(self.b(), r->Ok_0.1 as int),
+//@|     forall|i: int| 0 <= i < r->Ok_0.1 ==> lex_lt(#[trigger] int_seps(self.b())[i], target@),
+//@|     forall|i: int| r->Ok_0.1 <= i < pg_count(self.b()) ==> lex_le(target@, #[trigger] int_seps(self.b())[i]),
+//@preregex "?if k < target \{" => "if v_bytes_lt(k, target) {"
+//@preregex "?if k <= target \{" => "if v_bytes_le(k, target) {"
+//@loop 1
+//@| invariant internal_wf(self.b()), seps_sorted(int_seps(self.b())), n == pg_count(self.b()), lo <= hi <= n, n <= 65535,
+//@|     forall|i: int| 0 <= i < lo ==> lex_lt(#[trigger] int_seps(self.b())[i], target@),
+//@|     forall|i: int| hi <= i < n ==> lex_le(target@, #[trigger] int_seps(self.b())[i]),
+//@| decreases hi - lo
+//@proof before 1 "=lo = mid + 1;"
+//@| let cs = int_seps(self.b());
+//@| assert forall|i: int| 0 <= i < mid + 1 implies lex_lt(#[trigger] cs[i], target@) by {
+//@|     if i < mid { assert(lex_le(cs[i], cs[mid as int])); }
+//@|     lemma_lex_irrefl(cs[mid as int]);
+//@|     lemma_lex_trans(cs[i], cs[mid as int], target@);
+//@| }
+//@proof before 1 "=hi = mid;"
+//@| let cs = int_seps(self.b());
+//@| assert forall|i: int| mid <= i < n implies lex_le(target@, #[trigger] cs[i]) by {
+//@|     if mid < i { assert(lex_le(cs[mid as int], cs[i])); }
+//@|     lemma_lex_irrefl(cs[mid as int]);
+//@|     lemma_lex_trans(target@, cs[mid as int], cs[i]);
+//@| }
+//@end
+}
+
+// ================================================================== page updates
+//@trusted v_copy_within: `buf.copy_within(src..src + len, dst)` is memmove of len bytes from src to dst inside the page buffer (std panics unless both ranges lie inside the buffer: precondition)
+#[verifier::external_body]
+pub fn v_copy_within(buf: &mut [u8; PAGE_SIZE], src: usize, len: usize, dst: usize)
+    requires src + len <= 8192, dst + len <= 8192
+    ensures final(buf)@.len() == 8192,
+        final(buf)@.subrange(dst as int, dst + len) == old(buf)@.subrange(src as int, src + len),
+        forall|j: int| 0 <= j < 8192 && !(dst <= j < dst + len) ==> #[trigger] final(buf)@[j] == old(buf)@[j],
+{ buf.copy_within(src..src + len, dst) }
+//@trusted v_arr_range_mut: `&mut page[a..b]` is the mutable sub-slice: what is written through it lands at a..b of the page and nothing else changes (std panics unless a <= b <= 8192: precondition)
+#[verifier::external_body]
+pub fn v_arr_range_mut(page: &mut [u8; PAGE_SIZE], a: usize, b: usize) -> (r: &mut [u8])
+    requires a <= b <= 8192
+    ensures r@ == old(page)@.subrange(a as int, b as int),
+        final(page)@ == old(page)@.take(a as int) + final(r)@ + old(page)@.skip(b as int),
+{ &mut page[a..b] }
+//@trusted v_copy_from_slice: `dst.copy_from_slice(src)` overwrites dst with src (std panics unless the lengths are equal: precondition)
+#[verifier::external_body]
+pub fn v_copy_from_slice(dst: &mut [u8], src: &[u8])
+    requires old(dst)@.len() == src@.len()
+    ensures final(dst)@ == src@
+{ dst.copy_from_slice(src) }
+
+impl<'a> Page<'a> {
+//@extract nervusdb-storage/src/index/btree.rs Page::set_cell_content_begin
+//@| requires v <= 65535
+//@| ensures final(self).b().len() == old(self).b().len(), final(self).b().subrange(8, 10) == le16(v as u16),
+//@|     forall|j: int| 0 <= j < 8192 && !(8 <= j < 10) ==> #[trigger] final(self).b()[j] == old(self).b()[j],
+//@end
+//@extract nervusdb-storage/src/index/btree.rs Page::set_cell_count
+//@| requires count <= 65535
+//@| ensures final(self).b().len() == old(self).b().len(), final(self).b().subrange(6, 8) == le16(count as u16),
+//@|     forall|j: int| 0 <= j < 8192 && !(6 <= j < 8) ==> #[trigger] final(self).b()[j] == old(self).b()[j],
+//@end
+//@extract nervusdb-storage/src/index/btree.rs Page::set_right_sibling
+//@| ensures final(self).b().len() == old(self).b().len(), final(self).b().subrange(16, 24) == le64(id.0),
+//@|     forall|j: int| 0 <= j < 8192 && !(16 <= j < 24) ==> #[trigger] final(self).b()[j] == old(self).b()[j],
+//@end
+//@extract nervusdb-storage/src/index/btree.rs Page::slot_set ret r
+//@| requires pg_kind_ok(old(self).b()), pg_hdr(old(self).b()) + 2 * i + 2 <= 8192, v <= 65535,
+//@| ensures r is Ok, final(self).b().len() == 8192,
+//@|     final(self).b().subrange(pg_hdr(old(self).b()) + 2 * i, pg_hdr(old(self).b()) + 2 * i + 2) == le16(v as u16),
+//@|     forall|j: int| 0 <= j < 8192 && !(pg_hdr(old(self).b()) + 2 * i <= j < pg_hdr(old(self).b()) + 2 * i + 2) ==> #[trigger] final(self).b()[j] == old(self).b()[j],
+//@end
+//@extract nervusdb-storage/src/index/btree.rs Page::shift_slots_right ret r
+//@| requires pg_kind_ok(old(self).b()), pg_hdr(old(self).b()) + 2 * pg_count(old(self).b()) + 2 <= 8192,
+//@| ensures r is Ok <==> idx <= pg_count(old(self).b()), final(self).b().len() == 8192,
+//@|     r is Err ==> final(self).b() == old(self).b(),
+//@|     r is Ok ==> ({ let h = pg_hdr(old(self).b()); let c = pg_count(old(self).b());
+//@|         final(self).b().subrange(h + 2 * idx + 2, h + 2 * c + 2) == old(self).b().subrange(h + 2 * idx, h + 2 * c)
+//@|         && forall|j: int| 0 <= j < 8192 && !(h + 2 * idx + 2 <= j < h + 2 * c + 2) ==> #[trigger] final(self).b()[j] == old(self).b()[j] }),
+//@prewrite "self.buf.copy_within(src..src + len, src + 2);" => "v_copy_within(self.buf, src, len, src + 2);"
+//@end
+//@extract nervusdb-storage/src/index/btree.rs Page::shift_slots_left ret r
+//@| requires pg_kind_ok(old(self).b()), pg_hdr(old(self).b()) + 2 * pg_count(old(self).b()) <= 8192,
+//@| ensures r is Ok <==> idx < pg_count(old(self).b()), final(self).b().len() == 8192,
+//@|     r is Err ==> final(self).b() == old(self).b(),
+//@|     r is Ok ==> ({ let h = pg_hdr(old(self).b()); let c = pg_count(old(self).b());
+//@|         final(self).b().subrange(h + 2 * idx, h + 2 * c - 2) == old(self).b().subrange(h + 2 * idx + 2, h + 2 * c)
+//@|         && forall|j: int| 0 <= j < 8192 && !(h + 2 * idx <= j < h + 2 * c - 2) ==> #[trigger] final(self).b()[j] == old(self).b()[j] }),
+//@prewrite "self.buf.copy_within(src..src + len, dst);" => "v_copy_within(self.buf, src, len, dst);"
 //@end
 }
 
